@@ -26,6 +26,8 @@ import (
 	"io"
 	"net/http"
 	"net/url"
+	"sort"
+	"strconv"
 	"strings"
 	"testing"
 	"time"
@@ -225,6 +227,7 @@ type checker struct {
 	plugs map[plugKey]*httpin.Plugin
 	big   map[int][]byte // reusable seeded buffers of the production default size
 	solo  map[string]int
+	seen  map[string]bool
 }
 
 func (c *checker) plugin(es bool, avg int) *httpin.Plugin {
@@ -434,6 +437,33 @@ func (c *checker) poolOK(p *httpin.Plugin, size int) bool {
 
 // ---- oracle --------------------------------------------------------------------------
 
+// viol reports a violation; the detail text is only built for the first violation of a (clause, features) key
+// (vreport keeps one detail per key and counts the rest).
+func (c *checker) viol(clause string, feats map[string]string, detail func() string, tc *tcase) {
+	keys := make([]string, 0, len(feats))
+	for k, v := range feats {
+		keys = append(keys, k+"="+v)
+	}
+	sort.Strings(keys)
+	key := clause + "|" + strings.Join(keys, "|")
+	if c.seen[key] {
+		c.r.Violation(clause, feats, "", nil)
+		return
+	}
+	c.seen[key] = true
+	c.r.Violation(clause, feats, detail(), tc)
+}
+
+// ints renders small non-negative ints compactly (outcome signatures).
+func ints(a []int) string {
+	b := make([]byte, 0, 2*len(a))
+	for _, x := range a {
+		b = strconv.AppendInt(b, int64(x), 10)
+		b = append(b, ',')
+	}
+	return string(b)
+}
+
 func q(s string) string { return fmt.Sprintf("%q", s) }
 
 func (c *checker) feats(tc *tcase, extra ...string) map[string]string {
@@ -449,12 +479,16 @@ func (c *checker) checkReq(tc *tcase, idx int, res reqResult) (got []string, ok 
 	r := c.r
 	rs := tc.Reqs[idx]
 	if res.panicked != "" {
-		r.Violation("panic", c.feats(tc, "site", vreport.PanicSite(res.stack)),
-			fmt.Sprintf("request %d body=%s: panic: %s\n%s", idx, q(rs.Body), res.panicked, res.stack), tc)
+		c.viol("panic", c.feats(tc, "site", vreport.PanicSite(res.stack)),
+			func() string {
+				return fmt.Sprintf("request %d body=%s: panic: %s\n%s", idx, q(rs.Body), res.panicked, res.stack)
+			}, tc)
 		return nil, false
 	}
 	if res.err != nil {
-		r.Violation("error", c.feats(tc), fmt.Sprintf("request %d body=%s chunks=%v: processBulk returned %v for a well-formed body", idx, q(rs.Body), rs.Chunks, res.err), tc)
+		c.viol("error", c.feats(tc), func() string {
+			return fmt.Sprintf("request %d body=%s chunks=%v: processBulk returned %v for a well-formed body", idx, q(rs.Body), rs.Chunks, res.err)
+		}, tc)
 		return nil, false
 	}
 	var sids []pipeline.SourceID
@@ -491,15 +525,19 @@ func (c *checker) checkReq(tc *tcase, idx int, res reqResult) (got []string, ok 
 		case len(gotNE) != len(wantNE):
 			kind = "count"
 		}
-		r.Violation("lines", c.feats(tc, "kind", kind, "gzip", fmt.Sprint(rs.Gzip)),
-			fmt.Sprintf("request %d of %d, body=%s transport-chunks=%v gzip=%v eof_with_last=%v read-buffer=%d\n got In data (non-empty) = %q\nwant lines  (non-empty) = %q\n all In data = %q",
-				idx, len(tc.Reqs), q(rs.Body), rs.Chunks, rs.Gzip, rs.EOFWithLast, tc.Buf, gotNE, wantNE, got), tc)
+		c.viol("lines", c.feats(tc, "kind", kind, "gzip", fmt.Sprint(rs.Gzip)),
+			func() string {
+				return fmt.Sprintf("request %d of %d, body=%s transport-chunks=%v gzip=%v eof_with_last=%v read-buffer=%d\n got In data (non-empty) = %q\nwant lines  (non-empty) = %q\n all In data = %q",
+					idx, len(tc.Reqs), q(rs.Body), rs.Chunks, rs.Gzip, rs.EOFWithLast, tc.Buf, gotNE, wantNE, got)
+			}, tc)
 	}
 	for i := 1; i < len(sids); i++ {
 		if sids[i] != sids[0] {
 			ok = false
-			r.Violation("source-id", c.feats(tc, "kind", "changes-within-request"),
-				fmt.Sprintf("request %d body=%s: In calls of one request use source ids %v", idx, q(rs.Body), sids), tc)
+			c.viol("source-id", c.feats(tc, "kind", "changes-within-request"),
+				func() string {
+					return fmt.Sprintf("request %d body=%s: In calls of one request use source ids %v", idx, q(rs.Body), sids)
+				}, tc)
 			break
 		}
 	}
@@ -508,7 +546,9 @@ func (c *checker) checkReq(tc *tcase, idx int, res reqResult) (got []string, ok 
 			// all In calls of the request (the log is ordered) must precede the first WriteHeader/Write
 			if inAfterWrite {
 				ok = false
-				r.Violation("ack-order", c.feats(tc), fmt.Sprintf("request %d body=%s chunks=%v: In called after the 200 was written; log=%v", idx, q(rs.Body), rs.Chunks, c.rec.log), tc)
+				c.viol("ack-order", c.feats(tc), func() string {
+					return fmt.Sprintf("request %d body=%s chunks=%v: In called after the 200 was written; log=%v", idx, q(rs.Body), rs.Chunks, c.rec.log)
+				}, tc)
 			}
 		} else {
 			// the statement only constrains WHEN a 200 is sent; another answer is counted, not reported
@@ -589,13 +629,15 @@ func (c *checker) runCase(tc *tcase) {
 		got, ok := c.checkReq(tc, i, results[i])
 		allOK = allOK && ok
 		steps += int64(results[i].reads + len(got))
-		sig = append(sig, strings.Join(got, "|"), fmt.Sprint(tc.Reqs[i].Chunks))
+		sig = append(sig, strings.Join(got, "|"), ints(tc.Reqs[i].Chunks))
 	}
 	r.Steps(steps)
 	if tc.Schedule != nil {
 		if drift {
 			allOK = false
-			r.Violation("schedule", c.feats(tc), fmt.Sprintf("the number of Reads of a request differs from its solo run: reqs=%+v schedule=%v", tc.Reqs, tc.Schedule), tc)
+			c.viol("schedule", c.feats(tc), func() string {
+				return fmt.Sprintf("the number of Reads of a request differs from its solo run: reqs=%+v schedule=%v", tc.Reqs, tc.Schedule)
+			}, tc)
 		}
 		// Distinct live requests use distinct source ids. What the pipeline can observe of a request's source id is
 		// the span from its first to its last In call (positions in the global log); a request that has not yet
@@ -621,12 +663,14 @@ func (c *checker) runCase(tc *tcase) {
 				a, b := spans[i], spans[j]
 				if a != nil && b != nil && a.sid == b.sid && a.first <= b.last && b.first <= a.last {
 					allOK = false
-					r.Violation("source-id", c.feats(tc, "kind", "shared-by-live-requests"),
-						fmt.Sprintf("In calls of requests %d and %d interleave and both use source id %d; log=%+v reqs=%+v schedule=%v", i, j, a.sid, c.rec.log, tc.Reqs, tc.Schedule), tc)
+					c.viol("source-id", c.feats(tc, "kind", "shared-by-live-requests"),
+						func() string {
+							return fmt.Sprintf("In calls of requests %d and %d interleave and both use source id %d; log=%+v reqs=%+v schedule=%v", i, j, a.sid, c.rec.log, tc.Reqs, tc.Schedule)
+						}, tc)
 				}
 			}
 		}
-		sig = append(sig, fmt.Sprint(tc.Schedule))
+		sig = append(sig, ints(tc.Schedule))
 	}
 	if !allOK {
 		return
@@ -634,7 +678,7 @@ func (c *checker) runCase(tc *tcase) {
 	if nontrivial(tc) {
 		r.Nontrivial()
 	}
-	sig = append(sig, fmt.Sprint(tc.Buf))
+	sig = append(sig, strconv.Itoa(tc.Buf))
 	r.Outcome(sig...)
 	r.Sample(tc)
 }
@@ -778,7 +822,7 @@ func TestVerif(t *testing.T) {
 	vplug.Quiet()
 	r := vreport.Start("C11")
 	defer r.Finish()
-	c := &checker{r: r, rec: &recorder{}, plugs: map[plugKey]*httpin.Plugin{}, big: map[int][]byte{}, solo: map[string]int{}}
+	c := &checker{r: r, rec: &recorder{}, plugs: map[plugKey]*httpin.Plugin{}, big: map[int][]byte{}, solo: map[string]int{}, seen: map[string]bool{}}
 
 	if rc := r.ReplayCase(); rc != nil {
 		var tc tcase
@@ -809,7 +853,7 @@ func TestVerif(t *testing.T) {
 	r.Bound("chunkings_plain", "every composition of the body length (2^(n-1))")
 	r.Bound("chunkings_gzip", "whole, uniform 1/2/3/5/7, every single cut (thorough: every pair of cuts) of the compressed stream")
 	r.Bound("eof_styles", "(n,nil)+(0,EOF) and (n,EOF)")
-	r.Bound("avg_event_size", []int{0, 4096})
+	r.Bound("avg_event_size", []int{0, 64})
 	r.Bound("sequence", "optional primer request, the enumerated request, a fixed probe request - on one plugin instance without touching its pools in between")
 	r.Bound("concurrency", "2 requests x <=3 chunks (all interleavings of chunk deliveries), 3 requests x <=1 chunk (quick) / <=2 chunks (thorough)")
 	r.Rule("every body over {a,b,\\n,\\r} up to the length bound x every composition into read chunks x read-buffer sizes {1,2,3,16384} x two EOF styles x primers x driving modes (processChunk, processBulk, ServeHTTP plain/elasticsearch), gzip bodies with the chunkings of the compressed stream; plus all chunk-level interleavings of concurrent requests. A case is non-trivial if the enumerated request (not primer/probe; any request of a concurrent case) has at least one non-empty line and arrives in >=2 transport chunks or has a line longer than the read buffer. distinct = distinct (In data sequences, chunkings, buffer size, schedule)")
@@ -851,13 +895,16 @@ func TestVerif(t *testing.T) {
 					main := reqSpec{Body: body, Chunks: chunks, EOFWithLast: eofLast}
 					for pi, pr := range primers {
 						reqs := append(append(append([]reqSpec{}, pr...), main), probe)
-						for _, avg := range []int{0, 4096} {
+						for ai, avg := range []int{0, 64} {
+							if !r.Thorough() && pi >= 2 && ai != (ci+pi)%2 {
+								continue // quick tier: one of the two carry-over capacities for the later primers
+							}
 							c.runCase(&tcase{Mode: "bulk", Buf: buf, Avg: avg, Reqs: reqs, Main: len(pr)})
 						}
 						if pi <= 1 || (pi == 3 && buf == 3) {
 							c.runCase(&tcase{Mode: "serve", Buf: buf, Avg: 0, Reqs: reqs, Main: len(pr)})
 							if buf == 3 || buf == defaultBuf {
-								c.runCase(&tcase{Mode: "serve-es", Buf: buf, Avg: 4096, Reqs: reqs, Main: len(pr)})
+								c.runCase(&tcase{Mode: "serve-es", Buf: buf, Avg: 64, Reqs: reqs, Main: len(pr)})
 							}
 						}
 					}
@@ -876,8 +923,12 @@ func TestVerif(t *testing.T) {
 			if gi%64 == 0 && r.Expired() {
 				return
 			}
+			twoCuts := len(chunks) == 3 && gi > 6 // the (thorough-only) family "every pair of cuts"
 			for _, buf := range bufs {
 				if gi > 6 && buf == 2 {
+					continue
+				}
+				if twoCuts && buf != 3 && buf != defaultBuf {
 					continue
 				}
 				main := reqSpec{Body: body, Gzip: true, Chunks: chunks, EOFWithLast: gi%2 == 1}
@@ -885,10 +936,13 @@ func TestVerif(t *testing.T) {
 					if gi > 6 && pi == 2 {
 						continue
 					}
+					if twoCuts && pi != 0 {
+						continue
+					}
 					reqs := append(append(append([]reqSpec{}, pr...), main), probeGz)
 					mode, avg := "serve", 0
 					if (gi+pi)%2 == 1 {
-						mode, avg = "serve-es", 4096
+						mode, avg = "serve-es", 64
 					}
 					c.runCase(&tcase{Mode: mode, Buf: buf, Avg: avg, Reqs: reqs, Main: len(pr)})
 				}
